@@ -196,6 +196,8 @@ func (s *Sel) complete(sc *Sched, g *G, i int) {
 			cs.buf = append(cs.buf, item{val: w.val, vc: w.vc})
 			cs.nsend++
 			sc.wakeG(w.g, g)
+		} else if cs.ticker {
+			cs.buf = append(cs.buf, item{val: it.val, vc: it.vc})
 		}
 		c.val, c.ok = it.val, true
 		return
